@@ -34,6 +34,7 @@ class Sym:
         self.self_cls = self_cls or fi.cls
         self.inline = inline
         self.stack = tuple(stack) + (fi.qual,)     # functions being inlined: recursive calls stay call nodes
+        self.origin_cls = self.self_cls            # the class whose instance the term ('param', 'self') denotes (outermost function)
 
     # ------------------------------------------------------------------ functions
     def function_value(self, bound=None, depth=0):
@@ -786,6 +787,13 @@ class Sym:
                             v = self._inline(found[2], c, args, kws, depth, ci)
                             if v is not None:
                                 return v
+                    if base == ("param", "self") and self.origin_cls is not None and self.inline and depth < MAX_INLINE and self.fi.cls is None:
+                        # a module helper that was handed the caller's `self`:  helper(self, ..) calling  obj.method()  on it
+                        found = prog.lookup(self.origin_cls, c.func.attr)
+                        if found and found[0] == "method" and not found[2].is_static and not found[2].is_generator:
+                            v = self._inline(found[2], c, args, kws, depth, self.origin_cls)
+                            if v is not None:
+                                return v
                     if base[0] == "self" and len(base) == 2 and self.self_cls is not None and self.inline and depth < MAX_INLINE:
                         # method of a helper object the class keeps in a field that only ever holds instances of one package class
                         from .callgraph import field_classes
@@ -869,6 +877,7 @@ class Sym:
         for p in actual:
             bound[p] = ("ph", p)
         sub = Sym(self.prog, target, tcls or target.cls, self.inline, self.stack)
+        sub.origin_cls = self.origin_cls
         v = sub.function_value(bound, depth + 1)
         if v[0] in ("opaque", "loop", "mutated"):
             return None            # the helper's result is not understood as a whole (parts may be opaque atoms)
